@@ -36,6 +36,8 @@ type SpecEnv struct {
 	what   string
 	pre    *State // loop-entry state (for pre(...) in loop invariants)
 	qdepth int    // quantifier nesting depth (canonical bound-variable names)
+	rawArgs map[string]Value // call sites: argument values before conversion to the parameter type
+	altPkg  string           // second package for spec-function lookup (interface contract's package)
 	inPre  bool
 }
 
@@ -590,6 +592,20 @@ func (env *SpecEnv) call(x *SExpr) Value {
 			env.fail(x, "typeis(x, \"type key\")")
 		}
 		return boolVal(mkEq(dynType(t), mkApp("type!"+x.Args[1].Str, SInt)))
+	case "cast":
+		// cast(x, "pkg.Type"): view the reference x as a *pkg.Type (meaningful under typeis)
+		if len(x.Args) != 2 || x.Args[1].Kind != "str" {
+			env.fail(x, "cast(x, \"pkg.Type\")")
+		}
+		t := e.prog.namedType(x.Args[1].Str)
+		if t == nil {
+			env.fail(x, "unknown type "+x.Args[1].Str)
+		}
+		return Scalar{env.evalInt(x.Args[0]), types.NewPointer(t)}
+	case "unboxstr":
+		return Scalar{mkApp("unbox!str", SStr, env.evalInt(x.Args[0])), tyString}
+	case "unboxint":
+		return mathInt(mkApp("unbox!int", SInt, env.evalInt(x.Args[0])))
 	case "implements":
 		t := env.evalInt(x.Args[0])
 		if x.Args[1].Kind != "str" {
@@ -672,7 +688,19 @@ func (env *SpecEnv) call(x *SExpr) Value {
 	if strings.HasPrefix(x.Name, ".") {
 		env.fail(x, "method calls are not available in specs: "+x.Name)
 	}
-	if sf, ok := e.prog.specs.Funcs[x.Name]; ok {
+	pkgPath := ""
+	if env.pkg != nil {
+		pkgPath = env.pkg.Path()
+	}
+	sf := e.prog.specs.lookupFunc(x.Name, pkgPath)
+	if env.altPkg != "" {
+		if own, ok := e.prog.specs.Funcs[pkgPath+"#"+x.Name]; ok {
+			sf = own
+		} else if alt, ok := e.prog.specs.Funcs[env.altPkg+"#"+x.Name]; ok {
+			sf = alt
+		}
+	}
+	if sf != nil {
 		if len(x.Args) != len(sf.Params) {
 			env.fail(x, "wrong number of arguments for "+x.Name)
 		}
@@ -682,7 +710,12 @@ func (env *SpecEnv) call(x *SExpr) Value {
 		}
 		if sf.Body != nil {
 			n := &SpecEnv{e: e, st: env.st, old: env.old, vars: map[string]Value{}, pkg: env.pkg, inOld: env.inOld,
-				what: "spec " + sf.Name, oldVar: nil, qdepth: env.qdepth, pre: env.pre, inPre: env.inPre}
+				what: "spec " + sf.Name, oldVar: nil, qdepth: env.qdepth, pre: env.pre, inPre: env.inPre, altPkg: env.altPkg}
+			if sf.Pkg != "" {
+				if dp := e.prog.pkgs[sf.Pkg]; dp != nil {
+					n.pkg = dp.Types
+				}
+			}
 			for i, p := range sf.Params {
 				n.vars[p.Name] = args[i]
 			}
